@@ -435,20 +435,20 @@ def _validate_host_authority_header(headers):
     # TODO: We should also guard against receiving duplicate Host headers,
     # and against sending duplicate headers.
     authority_header_val = None
-    host_header_val = None
+    host_header_vals = []
 
     for header in headers:
         if header[0] in (b':authority', u':authority'):
             authority_header_val = header[1]
         elif header[0] in (b'host', u'host'):
-            host_header_val = header[1]
+            host_header_vals.append(header[1])
 
         yield header
 
-    # If we have not-None values for these variables, then we know we saw
-    # the corresponding header.
+    # If we have a not-None value for :authority, or any value for Host, then
+    # we know we saw the corresponding header.
     authority_present = (authority_header_val is not None)
-    host_present = (host_header_val is not None)
+    host_present = bool(host_header_vals)
 
     # It is an error for a request header block to contain neither
     # an :authority header nor a Host header.
@@ -458,13 +458,15 @@ def _validate_host_authority_header(headers):
         )
 
     # If we receive both headers, they should definitely match.
+    # That goes for every Host header of the block, not only for the last one.
     if authority_present and host_present:
-        if authority_header_val != host_header_val:
-            raise ProtocolError(
-                "Request header block has mismatched :authority and "
-                "Host headers: %r / %r"
-                % (authority_header_val, host_header_val)
-            )
+        for host_header_val in host_header_vals:
+            if authority_header_val != host_header_val:
+                raise ProtocolError(
+                    "Request header block has mismatched :authority and "
+                    "Host headers: %r / %r"
+                    % (authority_header_val, host_header_val)
+                )
 
 
 def _check_host_authority_header(headers, hdr_validation_flags):
